@@ -86,9 +86,12 @@ def install(w):
     # get_named_type: strips every wrapper; None stays None
     w.contract(f"{D}.get_named_type", params={"type_": "opt:ty"}, returns="opt:ty",
                ensures=["(result is None) == (type_ is None)",
-                        "implies(type_ is not None, NamedTy(result))"],
+                        "implies(type_ is not None, NamedTy(result))",
+                        # exactly the named type under the wrappers
+                        "implies(type_ is not None, result is NamedOf(type_))"],
                raises=[], modifies=[],
-               loops={1: {"invariant": ["ty_rank(unwrapped_type) >= 0"],
+               loops={1: {"invariant": ["ty_rank(unwrapped_type) >= 0",
+                                        "NamedOf(unwrapped_type) is NamedOf(type_)"],
                           "variant": "ty_rank(unwrapped_type)"}},
                locals={"unwrapped_type": "ty"},
                props={"C14", "C20"})
